@@ -89,6 +89,7 @@ def _case(draw, stratum):
         )
     )
     fail["mode"] = mode
+    fail["vols_container"] = draw(st.sampled_from(["list", "list", "tuple", "ndarray"]))
     fail["bad"] = draw(vs_bad())
     fail["bad_pos"] = draw(st.integers(0, 5))
     fail["late"] = draw(st.sampled_from(["wash7", "tip9", "rack_id33", "lc;", "direction", "arm2", "washNone0"]))
